@@ -565,9 +565,11 @@ def rule_whole_reference(chk, fb, kernels, rid, floor=1):
         floor=floor,
     )
     for d in sorted(kernels):
-        b = fb.mir[d]
+        eff, _ = effective_kernel(fb, d)
+        b = fb.mir[eff]
         fl = Flow(fb, b)
         chk.touch(d)
+        chk.touch(eff)
         n = 0
         for bi, t in fl.calls(lambda t: is_parser(fb, t.get("fn", ""))):
             f = t["fn"]
@@ -601,12 +603,54 @@ def STOP(fn):
     return fn.endswith("index_from_coordinate") or (bool(_FB) and is_parser(_FB[0], fn))
 
 
+def effective_kernel(fb, d):
+    """The body that does the per-piece work of kernel d: d itself when it calls the coordinate parser, otherwise the
+    private crate function that d (or a closure of d) hands each piece to and that calls the parser.  Returns
+    (body name, {argument index of d: argument index of that body}) - the map follows operands at the call site, through
+    closure captures."""
+    b = fb.mir[d]
+    ident = {i: i for i in range(1, b["argc"] + 1)}
+    if any(is_parser(fb, t.get("fn", "")) for _, t in fb.calls_in(b)):
+        return d, ident
+    fl_d = Flow(fb, b)
+    captures = {}  # closure def -> list of operand atoms (in d) per captured slot
+    for bl in b["blocks"]:
+        for st in bl["s"]:
+            if st["k"] == "assign" and st["rv"]["k"] == "agg" and st["rv"].get("ak") == "closure":
+                captures[st["rv"]["closure"]] = [fl_d.atoms(o) for o in st["rv"].get("ops", [])]
+    for c in [d] + sorted(x for x in fb.mir if x.startswith(d + "::{closure")):
+        cb = fb.mir[c]
+        fl = fl_d if c == d else Flow(fb, cb)
+        for bi, t in fl.calls():
+            f = t.get("fn", "")
+            fbody = fb.mir.get(f)
+            if not fbody or fbody.get("vis") == "pub" or not any(is_parser(fb, x.get("fn", "")) for _, x in fb.calls_in(fbody)) or is_parser(fb, f):
+                continue
+            amap = {}
+            for i, a in enumerate(t["args"]):
+                at = fl.atoms(a)
+                if c == d:
+                    ks = {x[1] for x in at if x[0] == "arg"}
+                else:
+                    ks = set()
+                    for x in at:
+                        if x[0] == "field" and isinstance(x[1], str) and x[1].startswith("closure:") and x[2].isdigit() and int(x[2]) < len(captures.get(c, [])):
+                            ks |= {y[1] for y in captures[c][int(x[2])] if y[0] == "arg"}
+                if len(ks) == 1:
+                    amap[next(iter(ks))] = i + 1
+            return f, amap
+    return d, ident
+
+
 def rule_translate(chk, fb, d):
     _FB[:] = [fb]
-    body = fb.mir[d]
+    kernel = d
+    eff, amap = effective_kernel(fb, d)
+    body = fb.mir[eff]
     cfg = CFG(body)
     fl = Flow(fb, body)
     chk.touch(d)
+    chk.touch(eff)
     rid = chk.rule(
         "C09.d",
         "translation kernel: each axis component (tuple field 0/1 of the parsed coordinate) is re-assigned only under its own $ flag (field 2/3), from its own offset argument, and the shifted value is range-checked on both sides",
@@ -632,7 +676,7 @@ def rule_translate(chk, fb, d):
             for axis, f in (("col", "0"), ("row", "1")):
                 if ("field", "tuple", f) in a0 and not any(("field", "tuple", g) in a0 for g in "0123" if g != f):
                     comps[axis] = l
-    for axis, own_flag, other_flag, own_arg, other_arg in (("col", "2", "3", 2, 3), ("row", "3", "2", 3, 2)):
+    for axis, own_flag, other_flag, own_arg, other_arg in (("col", "2", "3", amap.get(2, -2), amap.get(3, -3)), ("row", "3", "2", amap.get(3, -3), amap.get(2, -2))):
         l = comps.get(axis)
         if l is None:
             chk.ob(rid, "%s:%s:component" % (d, axis), False, where=fb.loc(d), detail="no mutable local initialised from field of the parsed coordinate found for axis %s" % axis)
@@ -699,10 +743,10 @@ def rule_translate(chk, fb, d):
                 detail="shift is guarded by a comparison with the grid maximum (16384 / 1048576): %s" % upper,
             )
     # sibling contradiction: unwrap of field 1 must be guarded by is_some on field 1 (C08.c one-sided check)
-    one_sided(chk, fb, d, "C09.d")
+    one_sided(chk, fb, eff, "C09.d", name=d)
 
 
-def one_sided(chk, fb, d, rid_prefix):
+def one_sided(chk, fb, d, rid_prefix, name=None):
     """Every `Option::unwrap` whose receiver derives from field f of the parsed coordinate must be
     control-dependent on an `is_some` test of the same field (Engler-style one-sided check)."""
     body = fb.mir[d]
@@ -725,17 +769,18 @@ def one_sided(chk, fb, d, rid_prefix):
         for x in cfg.control_deps_transitive(bi):
             sw = body["blocks"][x]["t"]
             at = fl.atoms(sw["op"])
-            if ("field", "tuple", f) in at and any(c[0] == "call" and c[1] == "std::option::Option::<T>::is_some" for c in at):
-                # is_some applied to that field specifically
+            TESTS = ("std::option::Option::<T>::is_some", "std::option::Option::<T>::is_none")
+            if ("field", "tuple", f) in at and any(c[0] == "call" and c[1] in TESTS for c in at):
+                # is_some / is_none (early exit) applied to that field specifically
                 for c in at:
-                    if c[0] == "call" and c[1] == "std::option::Option::<T>::is_some":
+                    if c[0] == "call" and c[1] in TESTS:
                         ct = body["blocks"][c[2]]["t"]
                         ca = fl.atoms(ct["args"][0], through_calls=False)
                         if ("field", "tuple", f) in ca:
                             guarded = True
         chk.ob(
             rid,
-            "%s:unwrap(field %s)" % (d, f),
+            "%s:unwrap(field %s)" % (name or d, f),
             guarded,
             where="%s:%s" % (body["file"], t["ln"]),
             detail="unwrap of component %s of the parsed coordinate; guarded by is_some of that component: %s" % (f, guarded),
@@ -765,8 +810,26 @@ def rule_set_coordinate(chk, fb):
                         m[pos] = next(iter(ps))
                 if len(m) == 2:
                     fwd[h_] = m
-    for d, b in fb.mir.items():
-        if not d.startswith("structs::cell::Cell::set_coordinate"):
+    CELL = "structs::cell::Cell"
+
+    def new_fields(m, fl, op, depth=0):
+        """fields of the requested CellCoordinates the operand derives from, following parameters of a private Cell
+        helper back to the call sites in Cell"""
+        at = fl.atoms(op)
+        fields = {a[2] for a in at if a[0] == "field" and a[1].endswith("CellCoordinates")}
+        if depth < 2:
+            for a in at:
+                if a[0] == "arg" and a[1] > 1:
+                    for c, cbi in sorted(fb.callers.get(m, ())):
+                        cb = fb.mir.get(c)
+                        if cb and cb.get("self_ty") == CELL:
+                            ct = cb["blocks"][cbi]["t"]
+                            if a[1] - 1 < len(ct["args"]):
+                                fields |= new_fields(c, Flow(fb, cb), ct["args"][a[1] - 1], depth + 1)
+        return fields
+
+    for d, b in sorted(fb.mir.items()):
+        if b.get("self_ty") != CELL or "::{closure" in d:
             continue
         fl = Flow(fb, b)
         for bi, t in fl.calls(lambda t: t.get("fn") in tr or t.get("fn") in fwd):
@@ -776,17 +839,16 @@ def rule_set_coordinate(chk, fb):
                 if apos >= len(t["args"]):
                     continue
                 at = fl.atoms(t["args"][apos])
-                fields = {a[2] for a in at if a[0] == "field" and a[1].endswith("CellCoordinates")}
+                fields = new_fields(d, fl, t["args"][apos])
                 getters = {a[1].split("::")[-1] for a in at if a[0] == "call"}
                 other = {"col": "row", "row": "col"}[newf]
                 ok = newf in fields and other not in fields and oldg in getters and ("get_%s_num" % other) not in getters
-                sub = any(True for a in at if a[0] == "call") and True
                 chk.ob(
                     rid,
-                    "%s:arg%d" % (d, pos),
+                    "structs::cell::Cell::set_coordinate:arg%d" % pos,
                     ok,
                     where="%s:%s" % (b["file"], t["ln"]),
-                    detail="offset argument %d derives from new fields %s and old getters %s" % (pos, sorted(fields), sorted(g for g in getters if g.startswith("get_"))),
+                    detail="offset argument %d (in %s) derives from the requested coordinate's fields %s and old getters %s" % (pos, d.split("::")[-1], sorted(fields), sorted(g for g in getters if g.startswith("get_"))),
                 )
 
 
